@@ -33,10 +33,14 @@ type c11Case struct {
 	// "" = nothing, "pretty" = the same cache re-indented (valid, longer), "tail" = the saved document followed
 	// by extra octets, "big" = a long unrelated document, "older" = an older, longer dump of another cache
 	Prefill string `json:"prefill,omitempty"`
+	// Weird: datagrams from one more exporter announcing adversarial templates (no fields, zero-length fields,
+	// huge or variable lengths on any type): they are part of the reachable cache contents and must survive,
+	// or at least not endanger, the round trip of everybody else's templates
+	Weird []wire.Hex `json:"weird,omitempty"`
 }
 
-const c11Rule = "case = a template cache built by a generated announce/re-announce/data history (IPFIX or NetFlow v9, several exporters, plain/options/enterprise templates) dumped to a file F (to a fresh path, or over an existing longer file: the same cache re-indented, a document with trailing octets, a long unrelated document), " +
-	"+ up to 40 corruptions of F; (a) round trip: after GetCache(F) every saved (exporter,id) decodes data exactly as before (records and error text) and unannounced pairs stay unknown; " +
+const c11Rule = "case = a template cache built by a generated announce/re-announce/data history (IPFIX or NetFlow v9, several exporters, plain/options/enterprise templates, optionally adversarial templates with no or zero-length fields from one more exporter) dumped to a file F (to a fresh path, or over an existing longer file: the same cache re-indented, a document with trailing octets, a long unrelated document), " +
+	"+ up to 40 corruptions of F; (a) round trip: after GetCache(F) every saved (exporter,id) decodes data exactly as before (records and error text), unannounced pairs stay unknown, and saving the loaded cache again reproduces the file byte for byte; " +
 	"(b) crash points: EVERY prefix F[:k] (all k when |F| <= 6 KiB, otherwise the first/last 1.5 KiB, 64 octets around every shard boundary and 600 sampled offsets) is loaded; " +
 	"(c) byte-level (flip, delete, insert, duplicate a range) and structure-level corruptions via a generic JSON tree (drop/null shards, null or wrongly typed Templates, extra shards, wrong/huge/negative/string ShardNo, " +
 	"null or garbage template entries, non-object documents, duplicate keys, deep nesting) plus absent/empty/directory paths; " +
@@ -348,6 +352,12 @@ func runC11(c *c11Case) (v verdict, sig string, err error) {
 		return v, "history-" + hsig, herr
 	}
 	proto := c.Hist.Proto
+	for _, w := range c.Weird {
+		if _, perr := cache.decodeFlow([]byte{203, 0, 113, 200}, w); perr != nil {
+			return v, "panic", fmt.Errorf("announcing an adversarial template: %v", perr)
+		}
+	}
+	v.label(len(c.Weird) > 0, "adversarial-templates-in-cache")
 	dir, e := os.MkdirTemp(c11WorkDir(), "case")
 	if e != nil {
 		return v, "", fmt.Errorf("harness: %v", e)
@@ -429,6 +439,14 @@ func runC11(c *c11Case) (v verdict, sig string, err error) {
 		if len(r2.Recs) != 0 || (r1.Err == nil) != (r2.Err == nil) || (r1.Err != nil && r1.Err.Error() != r2.Err.Error()) {
 			return v, "roundtrip", fmt.Errorf("round trip: unannounced exporter %x id %d decodes differently after load: before err=%v, after err=%v recs=%d", []byte(sl.Addr), sl.ID, r1.Err, r2.Err, len(r2.Recs))
 		}
+	}
+	// saving the loaded cache again must reproduce the file: nothing dropped, nothing altered by the round trip
+	resave := filepath.Join(dir, "resave.json")
+	if derr := loaded.dump(resave); derr != nil {
+		return v, "dump", fmt.Errorf("saving the loaded cache failed: %v", derr)
+	}
+	if again, e := os.ReadFile(resave); e != nil || !bytes.Equal(again, saved) {
+		return v, "roundtrip", fmt.Errorf("round trip: a cache loaded from its file and saved again differs from the file (%d vs %d octets): templates were dropped or altered by loading", len(again), len(saved))
 	}
 	if e := usable(loaded); e != nil {
 		return v, "unusable", fmt.Errorf("round trip: %v", e)
@@ -562,6 +580,15 @@ func TestC11(t *testing.T) {
 		proto := rapid.SampledFrom([]string{"ipfix", "nf9"}).Draw(t, "proto")
 		c := c11Case{Hist: genC04(t, proto, envs[proto]), PrefixSeed: rapid.IntRange(0, 1<<20).Draw(t, "prefixseed")}
 		c.Prefill = rapid.SampledFrom([]string{"", "", "pretty", "tail", "big", "older"}).Draw(t, "prefill")
+		if rapid.Bool().Draw(t, "weird") {
+			nw := rapid.IntRange(1, 3).Draw(t, "nweird")
+			for i := 0; i < nw; i++ {
+				var m wire.Msg
+				envs[proto].GenHeader(t, &m)
+				m.Sets = []wire.Set{envs[proto].WeirdTemplateSet(t, nil)}
+				c.Weird = append(c.Weird, m.Bytes())
+			}
+		}
 		c.Muts = genC11Muts(t)
 		v, sig, err := runC11(&c)
 		col.report(t, mustJSON(c), v, sig, err)
